@@ -5,7 +5,7 @@ from props import rtr_common
 
 THEOREMS = ["C13_initial", "C13_monotone", "C13_first_pdu", "C13_error_report", "C13_error_report_otherwise",
             "C13_closed_before_session", "C13_fast_reconnect", "C13_enforced", "C13_eod_format",
-            "C13_sync_translated", "C13_error_pdu_translated"]
+            "C13_sync_translated", "C13_error_pdu_translated", "C13_receive_header_phase_translated"]
 FAULTS = ["bad_version", "err_unsupported_ver", "close_now", "trunc_close", "eod_v0_in_v1", "bad_version", "err_other",
           "timeout", "trunc_err", "spurious_reset", "stop", "intr_before", "downgrade_error", "err_nodata_other_ver"]
 
